@@ -47,6 +47,10 @@ folder, which the machine takes as given (`Folder`); C16/C17 own that phase. -/
 theorem day_loop_reseeds : tables.dayLoopReseeds = true :=
   dayLoopReseeds_of_consumers tables consumers_reseeded
 
+/-- every code shape the extractor reads its facts from was found (a restructured day loop, simulate(), ... shows
+up here instead of stopping the check) -/
+theorem patterns_found : tables.patternErrors = [] := by decide
+
 /-- the saved daily seed series is re-used only under all three tests (length, first day, last day) -/
 theorem seed_series_reuse_checked : tables.seedSeriesChecked := by decide
 
